@@ -356,6 +356,16 @@ func (g *QGen) operandPath(depth int) *Expr {
 			sels = append(sels, Sel{Kind: "descent"}, g.nameSelExpr())
 		}
 	}
+	if depth < 2 && g.r.Chance(14) {
+		// a nested expression inside an operand path — a script index or a filter — evaluated by a nested run of the expression
+		// evaluator while the outer expression may already hold operands (the operand may stand second or third)
+		if g.r.Chance(50) {
+			sels = append(sels, Sel{Kind: "script", Expr: g.scriptExpr(depth + 1)})
+		} else {
+			sels = append(sels, Sel{Kind: "filter", Expr: g.expr(depth+1, true)})
+		}
+		g.Stats["expr.nested-expression-in-operand"]++
+	}
 	if g.r.Chance(12) {
 		// a trailing `..`: the incoming nodes and all their container descendants — several matches that include the
 		// node the path started from (possibly the document root, which has no parent)
